@@ -99,11 +99,12 @@ def _super_hook(repo, owner, base_hook, env0):
     return hook
 
 
-def _finder_bypasses_short_reads(repo, _cache={}):
+def _finder_bypasses_short_reads(repo):
     """_make_kmer_finder wraps the finder, when both front and back sets are requested, in a class whose
     kmers_present() answers True for every read shorter than the adapter (decision table over the length comparison)"""
-    if id(repo) in _cache:
-        return _cache[id(repo)]
+    _cache = repo.cache
+    if "finder-bypass" in _cache:
+        return _cache["finder-bypass"]
     res = False
     c, mk = repo.need_method("SingleAdapter", "_make_kmer_finder")
     ps = params(mk)
@@ -138,7 +139,7 @@ def _finder_bypasses_short_reads(repo, _cache={}):
                     if not shorter and ret != f"{inner}.kmers_present(SEQ)":
                         ok = False
                 res = ok and len(rows) >= 2
-    _cache[id(repo)] = res
+    _cache["finder-bypass"] = res
     return res
 
 
